@@ -282,6 +282,7 @@ def make_disl(case):
     d = am.defect.Dislocation(ucell, C, burgers=[float(x) for x in b], ξ_uvw=[float(x) for x in xi],
                               slip_hkl=[int(x) for x in hkl], conventional_setting=CRYSTALS[case['crystal']][0],
                               m=case['m'], n=case['n'], **kw)
+    d._c13_case = {k: v for k, v in case.items() if k not in ('shift', 'shiftindex', 'shiftscale')}
     return ucell, d
 
 
@@ -336,8 +337,8 @@ def gen_config(rng, d, kind, nmax=220):
         if rng.random() < 0.15:
             cfg['as_tuple'] = True                           # the documented type
     for nm, L in (('amin', d.rcell.box.a), ('bmin', d.rcell.box.b), ('cmin', d.rcell.box.c)):
-        if rng.random() < 0.15 and nat <= 12:
-            cfg[nm] = round(rng.uniform(0.5, 2.6) * L, 2)
+        if rng.random() < 0.2 and nat <= 30:
+            cfg[nm] = float(round(rng.uniform(0.5, 2.6 if nat <= 12 else 1.4) * L, 2))
     q = rng.random()
     if q < 0.35:
         cfg['shiftindex'] = rng.randrange(len(d.shifts))
@@ -425,28 +426,64 @@ def gen_config(rng, d, kind, nmax=220):
         cfg['linear'] = rng.random() < 0.4
         if rng.random() < 0.3:
             cfg['cutoff'] = round(rng.uniform(0.2, 1.2), 3)
+    if rng.random() < 0.12:
+        # the shift is given when the object is constructed (or not at all: shiftindex 0), none in the call
+        q = rng.random()
+        if q < 0.3:
+            ini = {'shiftindex': rng.randrange(-len(d.shifts), len(d.shifts))}
+        elif q < 0.6:
+            s_ = np.array(d.shifts[rng.randrange(len(d.shifts))], dtype=float)
+            s_[d.motionindex] += round(rng.uniform(-0.3, 0.3), 3)
+            ini = {'shift': s_.tolist(), 'shiftscale': False}
+        elif q < 0.9:
+            s_ = [0.0, 0.0, 0.0]
+            s_[d.cutindex] = rng.choice([0.125, 0.3, 0.41, 0.27])
+            s_[d.motionindex] = rng.choice([0.0, 0.1, -0.2])
+            ini = {'shift': s_, 'shiftscale': True}
+        else:
+            ini = {}
+        for k in ('shift', 'shiftindex', 'shiftscale'):
+            cfg.pop(k, None)
+        if cfg.get('center') is not None and not cfg.get('centerscale'):
+            cfg['center'][d.cutindex] = 0.0                  # (the offset along n was chosen for another shift)
+        cfg['init'] = ini
+    if rng.random() < 0.10:
+        cfg['noret'] = True
     return cfg
 
 
 def run_config(d, cfg):
-    """call the real generator.  -> ('ok', base, disl) | ('err', class, message)"""
-    kw = {k: v for k, v in cfg.items() if k not in ('kind', 'as_tuple', 'planepos', 'probe')}
+    """call the real generator.  -> ('ok', base, disl, object) | ('err', class, message, object)
+    cfg['init'] (dict of shift arguments, possibly empty): a FRESH Dislocation object is constructed with them and the
+    generator is called without shift arguments (the shift set at initialisation must be used);
+    cfg['noret']: called without return_base_system, the systems are read from the object's attributes."""
+    kw = {k: v for k, v in cfg.items() if k not in ('kind', 'as_tuple', 'planepos', 'probe', 'init', 'noret')}
     given = None
     if kw.get('sizemults') is not None:
         given = tuple(kw['sizemults']) if cfg.get('as_tuple') else list(kw['sizemults'])
         kw['sizemults'] = given
     else:
         kw.pop('sizemults', None)
+    if cfg.get('init') is not None:
+        try:
+            _u, d = make_disl(dict(d._c13_case, **cfg['init']))
+        except Exception as e:  # noqa
+            return ('err', 'init ' + _err_class(e), str(e)[:160], d)
     try:
-        if cfg['kind'] == 'mono':
-            base, disl = d.monopole(return_base_system=True, **kw)
+        gen = d.monopole if cfg['kind'] == 'mono' else d.periodicarray
+        if cfg.get('noret'):
+            ret = gen(**kw)
+            base, disl = d.base_system, d.disl_system
+            if ret is not disl:
+                return ('err', 'return-value', 'the system returned without return_base_system is not the disl_system '
+                        'attribute of the object', d)
         else:
-            base, disl = d.periodicarray(return_base_system=True, **kw)
+            base, disl = gen(return_base_system=True, **kw)
     except Exception as e:  # noqa
-        return ('err', _err_class(e), str(e)[:160])
+        return ('err', _err_class(e), str(e)[:160], d)
     if given is not None and list(given) != list(cfg['sizemults']):
-        return ('err', 'mutated', f'the caller\'s sizemults {cfg["sizemults"]} was changed to {list(given)}')
-    return ('ok', base, disl)
+        return ('err', 'mutated', f'the caller\'s sizemults {cfg["sizemults"]} was changed to {list(given)}', d)
+    return ('ok', base, disl, d)
 
 
 # ----------------------------------------------------------------------------------------
@@ -810,6 +847,7 @@ def _correspond_config(ctx, case, raw, ucell, d, cfg, stats, jobs):
              tuple(sorted((k, str(v)) for k, v in cfg.items())))
     # shift resolution happens inside the generator; replicate the call on a fresh object so that `d` keeps its state
     res = run_config(d, cfg)
+    d = res[3]
     label = f'{raw["crystal"]} b={raw["burgers"]} xi={raw["xi"]} hkl={raw["hkl"]} m={raw["m"]} n={raw["n"]} {cfg}'
     if res[0] == 'err' and res[1] in ('index', 'solver'):
         if res[1] == 'solver':
@@ -821,7 +859,16 @@ def _correspond_config(ctx, case, raw, ucell, d, cfg, stats, jobs):
     ms = getattr(d, '_c13_shifts', None)
     if res[0] == 'ok' or res[1] not in ('type',):
         exp = None
-        if cfg.get('shift') is not None:
+        if cfg.get('init') is not None:
+            ini = cfg['init']
+            if ini.get('shift') is not None:
+                exp = np.asarray(ini['shift'], dtype=float)
+                if ini.get('shiftscale'):
+                    exp = exp.dot(np.asarray(d.rcell.box.vects))
+            elif ms:
+                exp = np.zeros(3)
+                exp[d.cutindex] = ms[ini.get('shiftindex', 0)]
+        elif cfg.get('shift') is not None:
             exp = np.asarray(cfg['shift'], dtype=float)
             if cfg.get('shiftscale'):
                 exp = exp.dot(np.asarray(d.rcell.box.vects))
@@ -837,13 +884,13 @@ def _correspond_config(ctx, case, raw, ucell, d, cfg, stats, jobs):
                                 ' '.join(_opt(q) for q in qs))
     so = ctx.driver.ask(sline)
     ctx.stats.case(kind + ':' + raw['crystal'], canon, nontrivial=(res[0] == 'ok'),
-                   sample={'case': _sample(raw), 'cfg': cfg, 'result': res[0] if res[0] == 'ok' else res[1:]})
+                   sample={'case': _sample(raw), 'cfg': cfg, 'result': res[0] if res[0] == 'ok' else res[1:3]})
     stats[kind] += 1
     if so.startswith('err:'):
         stats['refusals'] += 1
         if res[0] != 'err' or res[1] != so[4:]:
             ctx.disagree(kind + ':sizemults', f'{label}: model refuses the multipliers ({so}), implementation '
-                         f'{res[0] if res[0] == "ok" else res[1:]}', info)
+                         f'{res[0] if res[0] == "ok" else res[1:3]}', info)
         return
     if res[0] == 'err' and res[1] == 'type':
         ctx.disagree(kind + ':sizemults', f'{label}: implementation raised TypeError ({res[2]}), model accepts {so}', info)
@@ -902,10 +949,10 @@ def _correspond_region(ctx, np, raw, d, cfg, res, label, info, stats):
         if out.startswith('err:'):
             if pres[0] != 'err' or pres[1] != out[4:]:
                 ctx.disagree('region:refusal', f'{plab}: model {out}, implementation '
-                             f'{pres[0] if pres[0] == "ok" else pres[1:]}', pinfo)
+                             f'{pres[0] if pres[0] == "ok" else pres[1:3]}', pinfo)
             continue
         if pres[0] == 'err':
-            ctx.disagree('region:refusal', f'{plab}: implementation raised {pres[1:]}, model accepts', pinfo)
+            ctx.disagree('region:refusal', f'{plab}: implementation raised {pres[1:3]}, model accepts', pinfo)
             continue
         f = _split(out)
         flags = [t == '1' for t in f[1].split()]
@@ -1016,7 +1063,7 @@ def _compare_mono(ctx, np, d, cfg, res, out, label, info, stats, width, full):
     if out.startswith('err:'):
         stats['refusals'] += 1
         if res[0] != 'err' or res[1].split()[0] != out[4:].split()[0]:
-            ctx.disagree('mono:refusal', f'{label}: model {out}, implementation {res[0] if res[0] == "ok" else res[1:]}', info)
+            ctx.disagree('mono:refusal', f'{label}: model {out}, implementation {res[0] if res[0] == "ok" else res[1:3]}', info)
         return
     if res[0] == 'err':
         ctx.disagree('mono:refusal', f'{label}: implementation raised {res[1]} ({res[2]}), model accepts', info)
@@ -1084,7 +1131,7 @@ def _compare_array(ctx, np, d, cfg, res, out, label, info, stats, width, full, m
         # refusals raised before the array construction (format / nonsingular)
         if res[0] != 'err' or res[1].split()[0] != out[4:].split()[0]:
             ctx.disagree('array:refusal', f'{label}: model {out[:60]}, implementation '
-                         f'{res[0] if res[0] == "ok" else res[1:]}', info)
+                         f'{res[0] if res[0] == "ok" else res[1:3]}', info)
         return
     margins = _fl(f[1])
     spm, intm = margins[:2]
@@ -1101,7 +1148,7 @@ def _compare_array(ctx, np, d, cfg, res, out, label, info, stats, width, full, m
         if min(spm, bidm, dupm, intm) < tiny:
             stats['exempt_near'] += 1
             return
-        ctx.disagree('array:refusal', f'{label}: model {f[0]}, implementation {res[0] if res[0] == "ok" else res[1:]}', info)
+        ctx.disagree('array:refusal', f'{label}: model {f[0]}, implementation {res[0] if res[0] == "ok" else res[1:3]}', info)
         return
     if res[0] == 'err':
         if min(spm, bidm, dupm, intm) < tiny:
@@ -1244,6 +1291,35 @@ def _oracle_cells(ctx, case, raw, ucell, d, info, label):
         ctx.violate(key + ':orientation', f'{label}: rcell.box.vects = {np.round(np.asarray(d.rcell.box.vects), 6).tolist()} '
                     f'is not uvws . ucell.vects . transform^T = {np.round(pred, 6).tolist()}: the crystal is not oriented as '
                     f'the elastic solution (C, burgers, m, n, xi) assumes', info)
+        return True
+    # choice of the cell vectors: among all lattice vectors with primitive indices |u|,|v|,|w| <= 5 the cut vector is
+    # (one of) the closest to the slip-plane normal n, the motion vector (one of) the closest to m among those in the
+    # slip plane (the documented search; angles in the frame of the solution, isclose tolerance of the code)
+    up = np.asarray(d.uvws_prim, dtype=float)
+    uc_ = np.array([[float(x) for x in r] for r in uvF])
+    P = np.linalg.inv(up).dot(uc_)                         # primitive indices -> conventional indices
+    allp = np.array([v for v in itertools.product(range(-5, 6), repeat=3) if any(v)], dtype=float)
+    cart = allp.dot(P).dot(np.asarray(ucell.box.vects)).dot(np.asarray(d.transform).T)
+    nrm = np.linalg.norm(cart, axis=1)
+    naxis = np.asarray(d.dislsol.n, dtype=float)
+    maxis = np.asarray(d.dislsol.m, dtype=float)
+    ang = lambda c: np.degrees(np.arccos(np.clip(c, -1.0, 1.0)))
+    an = ang(cart.dot(naxis) / nrm)
+    rv = np.asarray(d.rcell.box.vects)
+    a_cut = float(ang(rv[cut].dot(naxis) / np.linalg.norm(rv[cut])))
+    if a_cut > an.min() * (1 + 2e-5) + 1e-6:
+        best = allp[int(np.argmin(an))].astype(int).tolist()
+        ctx.violate(key + ':n-closest', f'{label}: the cell vector across the slip plane {[str(x) for x in uvF[cut]]} makes {a_cut:.6f} deg with '
+                    f'the plane normal; the lattice vector with primitive indices {best} (within the index bound 5) makes '
+                    f'{an.min():.6f} deg', info)
+        return True
+    inpl = np.abs(an - 90.0) < 1e-6
+    am_ = ang(cart[inpl].dot(maxis) / nrm[inpl])
+    a_mot = float(ang(rv[motion].dot(maxis) / np.linalg.norm(rv[motion])))
+    if len(am_) and a_mot > am_.min() * (1 + 2e-5) + 1e-6:
+        best = allp[inpl][int(np.argmin(am_))].astype(int).tolist()
+        ctx.violate(key + ':m-closest', f'{label}: the in-plane cell vector {[str(x) for x in uvF[motion]]} makes {a_mot:.6f} deg with m; the '
+                    f'in-plane lattice vector with primitive indices {best} makes {am_.min():.6f} deg', info)
     return True
 
 
@@ -1607,12 +1683,21 @@ def _requested_shift(ctx, np, d, cfg, info, label, key):
             req = req.dot(np.asarray(d.rcell.box.vects))
     elif cfg.get('shiftindex') is not None:
         req = np.asarray(d.shifts, dtype=float)[cfg['shiftindex']]
+    elif cfg.get('init') is not None:
+        # no shift argument in the call: the shift set when the (fresh) object was constructed
+        ini = cfg['init']
+        if ini.get('shift') is not None:
+            req = np.asarray(ini['shift'], dtype=float)
+            if ini.get('shiftscale'):
+                req = req.dot(np.asarray(d.rcell.box.vects))
+        else:
+            req = np.asarray(d.shifts, dtype=float)[ini.get('shiftindex', 0)]
     else:
         return np.asarray(d.shift, dtype=float)
     got = np.asarray(d.shift, dtype=float)
     if got.shape != (3,) or np.abs(got - req).max() > 1e-9 * max(1.0, float(np.abs(req).max())):
         ctx.violate(key + ':shift-request', f'{label}: the generator used shift {got.tolist()}, requested was '
-                    f'{req.tolist()} ({"shift" if cfg.get("shift") is not None else "shiftindex"})', info)
+                    f'{req.tolist()} ({"shift" if cfg.get("shift") is not None else "shiftindex" if cfg.get("shiftindex") is not None else "set at construction: " + str(cfg.get("init"))})', info)
         return None
     return req
 
@@ -1650,7 +1735,7 @@ def _check_boundary(ctx, np, d, cfg, base, disl, shape, width, info, label, key)
 
 def _oracle_mono(ctx, np, case, raw, ucell, d, cfg, res, info, label):
     key = 'mono'
-    base, disl = res[1], res[2]
+    base, disl, d = res[1], res[2], res[3]
     line, cut, motion = d.lineindex, d.cutindex, d.motionindex
     shift = _requested_shift(ctx, np, d, cfg, info, label, key)
     if shift is None:
@@ -1723,7 +1808,7 @@ def _oracle_mono(ctx, np, case, raw, ucell, d, cfg, res, info, label):
             plab = label.rsplit(" {'kind'", 1)[0] + ' ' + str(pc)
             if pres[0] == 'err':
                 if not (pres[1] == 'assert' and shape == 'cylinder'):
-                    ctx.violate(key + ':probe-refusal', f'{plab}: refused ({pres[1:]}) although the same configuration with '
+                    ctx.violate(key + ':probe-refusal', f'{plab}: refused ({pres[1:3]}) although the same configuration with '
                                 f'boundarywidth {width} was generated', pinfo)
                     return
                 continue
@@ -1737,7 +1822,7 @@ def _oracle_mono(ctx, np, case, raw, ucell, d, cfg, res, info, label):
 
 def _oracle_array(ctx, np, case, raw, ucell, d, cfg, res, info, label):
     key = 'array'
-    base, disl = res[1], res[2]
+    base, disl, d = res[1], res[2], res[3]
     line, cut, motion = d.lineindex, d.cutindex, d.motionindex
     shift = _requested_shift(ctx, np, d, cfg, info, label, key)
     if shift is None:
@@ -1754,6 +1839,12 @@ def _oracle_array(ctx, np, case, raw, ucell, d, cfg, res, info, label):
         return
     if base.natoms != disl.natoms:
         ctx.violate(key + ':natoms', f'{label}: {disl.natoms} atoms, trimmed reference {base.natoms}', info)
+        return
+    # documented refusal: an atomic plane on the slip plane (the mid-plane of the cell across the cut) has no defined side
+    srel_ = _rel(np, base.atoms.pos, base.box)[:, cut]
+    if np.abs(srel_ - 0.5).min() < 1e-10:
+        ctx.violate(key + ':atoms-on-slip-plane', f'{label}: {int((np.abs(srel_ - 0.5) < 1e-10).sum())} reference atoms lie on '
+                    f'the slip plane (relative coordinate 0.5 across the cut); the generator must refuse (ValueError)', info)
         return
     old = np.asarray(disl.atoms.old_id)
     if len(old) != disl.natoms or np.any(np.diff(old) <= 0):
@@ -1818,7 +1909,7 @@ def _oracle_array(ctx, np, case, raw, ucell, d, cfg, res, info, label):
     cutoff = cfg.get('cutoff')
     cutoff = 0.5 if cutoff is None else cutoff
     thresh = min(cutoff, 0.3 * r_nn)
-    if disl.natoms <= 1500:
+    if disl.natoms <= 1500 and not cfg.get('probe'):
         Lm_ = abs(bv[motion].dot(mvec))
         for rmin, i_, j_ in _close_pairs(np, np.asarray(disl.atoms.pos), nv, exp_pbc, thresh):
             allow = thresh
@@ -1826,6 +1917,9 @@ def _oracle_array(ctx, np, case, raw, ucell, d, cfg, res, info, label):
                 # the elastic field of one dislocation is not periodic along m: at height y above the slip plane the two
                 # faces differ by b/2 - b atan(2y/L)/pi instead of the b/2 the tilted cell provides (isotropic screw
                 # value; factor 1.5 for anisotropy and the edge part): neighbours across the faces may approach by that
+                ri_ = np.asarray(base.atoms.pos)[[i_, j_]] - center
+                if max(np.hypot(ri_.dot(mvec), ri_.dot(nvec))) < float(np.linalg.norm(bvec)):
+                    continue                              # both within |b| of the line: the singular core of the solution
                 yy = max(abs((np.asarray(base.atoms.pos)[i_] - center).dot(nvec)),
                          abs((np.asarray(base.atoms.pos)[j_] - center).dot(nvec)))
                 allow = min(thresh, r_nn - 1.5 * float(np.linalg.norm(bvec)) * math.atan(2 * yy / Lm_) / math.pi)
@@ -1870,24 +1964,50 @@ def _oracle_array(ctx, np, case, raw, ucell, d, cfg, res, info, label):
     if not _check_boundary(ctx, np, d, cfg, base, disl, 'array', width, info, label, key):
         return
     if not cfg.get('probe') and not cfg.get('linear'):
-        pass          # (elastic arrays: the surface layers, hence the positions, depend on the width: no width probes)
+        # elastic arrays: the surface layers (linear field) are chosen by the height of the REFERENCE atoms: widths
+        # immediately on either side of the depth of an atomic plane below the lower / upper surface
+        yb_ = np.asarray(base.atoms.pos).dot(nvec)
+        y0_ = np.asarray(base.box.origin).dot(nvec)
+        y1_ = y0_ + bv[cut].dot(nvec)
+        lo_, hi_ = min(y0_, y1_), max(y0_, y1_)
+        eps = 1e-5 * sc
+        ws = []
+        for dep in (yb_ - lo_, hi_ - yb_):
+            cand = np.unique(np.round(dep[(dep > 50 * eps) & (dep < 0.45 * (hi_ - lo_))], 9))
+            if len(cand):
+                t = float(cand[ctx.rng.randrange(min(len(cand), 6))])
+                ws += [t - eps, t + eps]
+        for w_ in ws:
+            pc = {k: v for k, v in cfg.items() if k != 'boundaryscale'}
+            pc['boundarywidth'] = float(w_)
+            pc['probe'] = True
+            pres = run_config(d, pc)
+            pinfo = dict(info, cfg=pc)
+            plab = label.rsplit(" {'kind'", 1)[0] + ' ' + str(pc)
+            if pres[0] == 'err':
+                ctx.violate(key + ':probe-refusal', f'{plab}: refused ({pres[1:3]}) although the same configuration with '
+                            f'boundarywidth {width} was generated', pinfo)
+                return
+            _oracle_array(ctx, np, case, raw, ucell, d, pc, pres, pinfo, plab)
     elif not cfg.get('probe'):
         for pc in _probe_cfgs(np, ctx.rng, d, base, disl, cfg, 'array', sc, nmax=4):
             pres = run_config(d, pc)
             pinfo = dict(info, cfg=pc)
             plab = label.rsplit(" {'kind'", 1)[0] + ' ' + str(pc)
             if pres[0] == 'err':
-                ctx.violate(key + ':probe-refusal', f'{plab}: refused ({pres[1:]}) although the same configuration with '
+                ctx.violate(key + ':probe-refusal', f'{plab}: refused ({pres[1:3]}) although the same configuration with '
                             f'boundarywidth {width} was generated', pinfo)
                 return
             if not _check_boundary(ctx, np, d, pc, pres[1], pres[2], 'array', pc['boundarywidth'], pinfo, plab, key):
                 return
-    _disregistry_check(ctx, np, d, base, disl, 'array', cfg, info, label, ucell.box.a)
+    if not cfg.get('probe'):
+        _disregistry_check(ctx, np, d, base, disl, 'array', cfg, info, label, ucell.box.a)
 
 
 def _oracle_refusal(ctx, np, d, cfg, res, ucell, info, label):
     """a refusal must be one of the documented ones and must be justified."""
     cls = res[1]
+    d = res[3]
     kind = cfg['kind']
     sm = cfg.get('sizemults')
     line = d.lineindex
@@ -1914,33 +2034,75 @@ def _oracle_refusal(ctx, np, d, cfg, res, ucell, info, label):
                         f'{np.abs(zz).min()}', info)
         return
     if cls in ('value nonint', 'value mismatch') and kind == 'array':
-        # documented refusals; the expected count quoted in the message must be the one the edge component implies
+        # documented refusals; they must be justified: the count implied by the edge component (volume change of the
+        # tilted cell) is not an integer / differs from the number of coincident atoms of the linearly displaced crystal
         import re
+        sizes = []
+        for i in range(3):
+            s_ = 2 if sm is None else sm[i]
+            if sm is None and i == line:
+                s_ = 1
+            sizes.append(s_)
+        qs_, center_, _w = _resolved(d, cfg, ucell)
+        for i in range(3):
+            if qs_[i] is not None:
+                q = qs_[i] + (1 if (i != line and qs_[i] % 2) else 0)
+                sizes[i] = max(sizes[i], q)
+        bv = np.asarray(d.rcell.box.vects) * np.array(sizes)[:, None]
+        b = np.asarray(d.dislsol.burgers)
+        mvec = np.asarray(d.dislsol.m)
+        nvec = np.asarray(d.dislsol.n)
+        N0 = d.rcell.natoms * sizes[0] * sizes[1] * sizes[2]
+        rec = np.linalg.inv(bv).T
+        implied = N0 * abs(b.dot(rec[d.motionindex])) / 2     # natoms (1 - V'/V) for the shrinking tilt
+        frac = abs(implied - round(implied))
+        if cls == 'value nonint':
+            if frac < 1e-9 * max(1.0, abs(implied)):
+                ctx.violate('array:refusal-nonint', f'{label}: refused for a non-integer deletion count, but the edge component '
+                            f'implies {implied} atoms ({res[2]})', info)
+            return
         mm = re.search(r'expected (-?\d+), found (-?\d+)', res[2])
-        if mm:
-            try:
-                sizes = []
-                for i in range(3):
-                    s_ = 2 if sm is None else sm[i]
-                    if sm is None and i == line:
-                        s_ = 1
-                    sizes.append(s_)
-                qs_, _c, _w = _resolved(d, cfg, ucell)
-                for i in range(3):
-                    if qs_[i] is not None:
-                        q = qs_[i] + (1 if (i != line and qs_[i] % 2) else 0)
-                        sizes[i] = max(sizes[i], q)
-                bv = np.asarray(d.rcell.box.vects) * np.array(sizes)[:, None]
-                b = np.asarray(d.dislsol.burgers)
-                mvec = np.asarray(d.dislsol.m)
-                N0 = d.rcell.natoms * sizes[0] * sizes[1] * sizes[2]
-                rec = np.linalg.inv(bv).T
-                implied = N0 * abs(b.dot(rec[d.motionindex])) / 2     # natoms (1 - V'/V) for the shrinking tilt
-                if abs(implied - int(mm.group(1))) > 1e-6 * max(1.0, N0):
-                    ctx.violate('array:refusal-count', f'{label}: refused with expected {mm.group(1)} atoms to delete, the '
-                                f'edge component implies {implied}', info)
-            except Exception:  # noqa
-                pass
+        if mm and abs(implied - int(mm.group(1))) > 1e-6 * max(1.0, N0):
+            ctx.violate('array:refusal-count', f'{label}: refused with expected {mm.group(1)} atoms to delete, the '
+                        f'edge component implies {implied}', info)
+            return
+        if frac > 1e-9 * max(1.0, abs(implied)) or N0 > 1200:
+            return
+        # independent count of the coincident atoms: whole crystal (not only a strip near the faces), all pairs through
+        # the periodic images of the tilted cell
+        mo, cut = d.motionindex, d.cutindex
+        sizes6 = []
+        for i in range(3):
+            sizes6 += [0, sizes[i]] if i == line else [-sizes[i] // 2, sizes[i] // 2]
+        full = _full_base(np, d, sizes6, np.asarray(d.shift, dtype=float))
+        fv = np.asarray(full.box.vects)
+        pos = np.array(full.atoms.pos)
+        sp = _rel(np, pos, full.box)[:, mo]
+        pos[np.isclose(sp, 1.0, rtol=0.0, atol=1e-8)] -= fv[mo]
+        L = abs(fv[mo].dot(mvec))
+        p0 = pos - center_
+        test = pos + np.outer(np.sign(p0.dot(nvec)) * (0.25 - p0.dot(mvec) / (2 * L)), b)
+        nv = fv.copy()
+        nv[mo] += (-b / 2 if b.dot(mvec) > 0 else b / 2)
+        cutoff = cfg.get('cutoff')
+        cutoff = 0.5 if cutoff is None else cutoff
+        best = np.full((len(test), len(test)), np.inf)
+        for a_ in ((-1, 0, 1) if cut != 0 else (0,)):
+            for b_ in ((-1, 0, 1) if cut != 1 else (0,)):
+                for c_ in ((-1, 0, 1) if cut != 2 else (0,)):
+                    dd = test[None, :, :] - test[:, None, :] + (a_ * nv[0] + b_ * nv[1] + c_ * nv[2])
+                    best = np.minimum(best, np.sqrt((dd ** 2).sum(axis=2)))
+        iu = np.triu_indices(len(test), 1)
+        dist = best[iu]
+        if np.abs(dist - cutoff).min() < 1e-6 * max(1.0, cutoff):
+            return                                        # a pair at the cutoff: either count is acceptable
+        close = np.zeros_like(best, dtype=bool)
+        close[iu] = dist < cutoff
+        found = int(close.any(axis=1).sum())              # atoms with a later atom within the cutoff
+        if found == int(round(implied)):
+            ctx.violate('array:refusal-mismatch', f'{label}: refused ({res[2]}), but the linearly displaced crystal in the '
+                        f'tilted cell has exactly {found} atoms coinciding (within the cutoff {cutoff}) with a later atom, the '
+                        f'number the edge component implies', info)
         return
     ctx.violate(kind + ':refusal', f'{label}: unexpected refusal {cls}: {res[2]}', info)
 
@@ -1984,7 +2146,7 @@ def _search_case(ctx, case, raw, ncfg, stats):
                 stats['solver_refused'] += 1
                 qs_, center_, _w = _resolved(d, cfg, ucell)
                 W = d.rcell.box.vects[d.cutindex, d.cutindex]
-                z = np.asarray(d.rcell.atoms.pos)[:, d.cutindex] + np.asarray(d.shift)[d.cutindex] - center_[d.cutindex]
+                z = np.asarray(d.rcell.atoms.pos)[:, d.cutindex] + np.asarray(res[3].shift)[d.cutindex] - center_[d.cutindex]
                 zz = np.mod(z + W / 2, W) - W / 2
                 if np.abs(zz).min() > 1e-6 * W:
                     ctx.violate(kind + ':complex-field', f'{lab}: the generator failed on a complex elastic field although no '
